@@ -195,6 +195,38 @@ def ndv_unique_shape(q, tables, is_parquet):
                 counts.add(len({(r[i][1] if isinstance(r[i], tuple) else r[i]) for r in s[1]}))
     return counts or None
 
+def rt_renamed_shape(q, tables, is_parquet, prescan_off):
+    """an INNER join whose runtime filter is linked, through a column-only projection that RENAMES, to the wrong provider column:
+    one input is `SELECT .. t.cB AS cI ..` over an unfiltered scan of a Parquet table T that streams (scanned once in the
+    statement, or shared with the prescan switched off), the join key is output column I, B <> I, and T's own column cI is Int64"""
+    scans = {}
+    for n in subqueries(q):
+        if n[0] == "table":
+            scans[n[1]] = scans.get(n[1], 0) + 1
+    def base_col(side, i):
+        # (table index, base column) of output column i if side is column-only projections over a bare table
+        if side[0] == "table":
+            return side[1], i
+        if side[0] == "project" and all(e[0] == "col" for e in side[2]) and i < len(side[2]):
+            return base_col(side[1], side[2][i][1])
+        return None
+    for j in subqueries(q):
+        if j[0] != "join" or j[1] != "JInner":
+            continue
+        wl = sqlq.width(j[2])
+        for a, b in equi_pairs(j[4]):
+            a, b = (a, b - wl) if a < wl else (b, a - wl)
+            for side, i in ((j[2], a), (j[3], b)):
+                bc = base_col(side, i) if 0 <= i < sqlq.width(side) else None
+                if bc is None or side[0] == "table":
+                    continue
+                t = tables[bc[0]]
+                if not is_parquet(t["name"]) or (scans.get(bc[0], 0) > 1 and not prescan_off):
+                    continue
+                if bc[1] != i and i < len(t["types"]) and t["types"][i] == "i64":
+                    return True
+    return False
+
 def dense_empty_sum_patch(q, ref_rows):
     """what the dense accumulators return where the reference says NULL: SUM -> 0, AVG -> 0/0 (NaN)"""
     nk = len(q[2])
@@ -264,14 +296,22 @@ def run(ctx):
     def layout_of(cfg):
         return (lambda name: name == "ta") if cfg == "mixed" else (lambda name: True)
     def classify_extra(r):
-        """the one recorded class, decided by the statement's shape, the rows and the layout. Second component: impl == model;
-        ndv-unique-key: the model groups by the allegedly unique key alone (one output row per distinct value of it)"""
+        """the recorded classes, decided by the statement's shape, the rows and the layout. Second component: impl == model;
+        ndv-unique-key: the model groups by the allegedly unique key alone (one output row per distinct value of it);
+        rt-filter-renamed-column: the model loses join rows (runtime filter applied to the provider column that merely shares
+        the projected key's NAME)"""
         cfg = r["cfg"]
         if not cfg.startswith("pq") and cfg != "mixed":
             return None
         nu = ndv_unique_shape(r["q"], bases[r["base"]]["tables"], layout_of(cfg))
         if nu and r["status"] == "ran":
             return ("ndv-unique-key", r.get("impl_rows") in nu)
+        if r["status"] == "ran" and rt_renamed_shape(r["q"], bases[r["base"]]["tables"], layout_of(cfg), "big" in cfg):
+            # the model: the join keeps a sub-bag of its rows (the scan was pruned by the key set applied to another column)
+            want = r.get("_base_rows")
+            if want is None:
+                want = refs[(r["base"], r["qi"])]["sql"]
+            return ("rt-filter-renamed-column", "_rows" in r and confcheck.sub_bag(r["_rows"], want))
         return None
     def repaired_shapes(r):
         """shapes of the four classes repaired by `fix:` dd0f095 / b5b0b0b / 12bbf8d (fixed: entries in known_findings.txt): they
